@@ -9,6 +9,10 @@ CLAIMED = {
  "C10": ("exploration", "6.10", "seeded histories of bridge creation and deposits over existing and non-existent ids with crash/restart; sequence, event, token-pair and ledger model compared after every block", "lock-step reference model over real BaseApp"),
  "C11": ("exploration", "6.11", "seeded propose/delete/re-propose histories; model log vs paginated queries, exported state and structural invariants after every block", "lock-step reference model over real BaseApp"),
  "C19": ("exploration", "6.19", "histories of create/update-metadata/update-challenger with grammar-generated metadata, channel states and injected perm-keeper faults; admin table model compared after every block", "seeded simulation with dependency-fault injection"),
+ "C06": ("exploration", "6.6", "seeded relay schedules (duplicates, stale replays, gaps, reordering, batches, racing executors, an outsider) over a deposit stream with crash between FinalizeBlock and Commit; exactly-once in-order oracle on results, events, sequences, ledger and supply", "seeded schedule search over message delivery with lock-step model"),
+ "C09": ("exploration", "6.9", "seeded histories of credited / refunded deposits, transfers and withdrawal attempts with crash/restart and dependency faults on burn/send; supply conservation, exact debit, shared gap-free L2 sequence, immutable denom mapping checked after every block", "lock-step reference model over real BaseApp + fault injection"),
+ "C13": ("exploration", "6.13", "seeded validator-set histories whose every end-block batch is applied to the real CometBFT ValidatorSet, with crash between FinalizeBlock and Commit; engine set = state = last powers, index bijection, cap, purge and historical-info retention checked after every block", "seeded simulation with real CometBFT validator-set code as the engine stub"),
+ "C14": ("exploration", "6.14", "executor-change plans (fresh / reused operator, fresh / reused key, malformed) registered around other validator operations with node restarts in between; at the plan height the engine set, state and executor list must be exactly the plan's and block processing must not fail", "seeded simulation with restart faults and engine stub"),
 }
 PENDING = {}
 NA = {"C17": "pure functions of their byte inputs (hash/derivation formats, no aliasing): no schedule, clock, fault, crash point or history to simulate; deciding it is differential input testing, not deterministic simulation (DESIGN 6.17). Format agreement on system-reachable inputs is observed as a by-product by C03/C04/C08 through the independent prover."}
